@@ -62,4 +62,11 @@ func main() {
 			break
 		}
 	}
+	out.Flush()
+	for _, d := range cleanupDirs {
+		os.RemoveAll(d)
+	}
 }
+
+// scratch directories created by handlers, removed at exit
+var cleanupDirs []string
